@@ -167,6 +167,32 @@ pub fn run(seed: u64, thorough: bool, rep: &mut Report) {
                 rep.fail("C17", "verify_iff_recover", "verify differs from recover_pk == pk");
             }
         }
+        // single-bit mutations of the signature string (every bit of one character, one bit of others)
+        {
+            let bytes = sig.as_bytes().to_vec();
+            let i = rng.below(bytes.len() as u64) as usize;
+            let j = rng.below(bytes.len() as u64) as usize;
+            let mut flips: Vec<(usize, u8)> = (0..8).map(|b| (i, 1u8 << b)).collect();
+            flips.push((j, 0x20));
+            flips.push((0, 1 << rng.below(7)));
+            for (pos, mask) in flips {
+                let mut b2 = bytes.clone();
+                b2[pos] ^= mask;
+                let Ok(s2) = String::from_utf8(b2) else { rep.count("bitflip-not-utf8"); continue };
+                rep.count("bitflip-signature");
+                let v = verify(&msg, &s2, &pk);
+                if v {
+                    if s2.eq_ignore_ascii_case(&sig) {
+                        rep.fail("C17", "case_flipped_signature_verifies", &format!("a signature altered in the case of one letter (bit 0x20 of character {pos}) still verifies: zbase32 decoding is case-insensitive"));
+                    } else {
+                        rep.fail("C17", "altered_signature_verifies", &format!("signature with bit {mask:#x} of character {pos} flipped verifies for the signer"));
+                    }
+                }
+                if v != (recover_pk(&msg, &s2).ok() == Some(pk)) {
+                    rep.fail("C17", "verify_iff_recover", "verify differs from recover_pk == pk (bit-flipped signature)");
+                }
+            }
+        }
         // another key
         let sk2 = SecretKey::from_slice(&[0x33; 32]).unwrap();
         if verify(&msg, &sig, &PublicKey::from_secret_key(&secp, &sk2)) {
